@@ -44,7 +44,9 @@ PROP = {
                'its modification record, via the C06 reference machine); sequences decode to the sequence of their events; table '
                'theorems (DEC modes, literal key table, xterm reference encoding of the keys, modifier convention, CPR vs F3) are '
                're-checked on regenerated data.',
- 'level_note': 'Trusted: Coq kernel + vm_compute; DFA dump hook + translate/dfa.py + translate/c04keys.py; hand-written payload '
+ 'level_note': 'Restricted statements: C04_xterm_keys_upto_mask7 (the table stops at modifier mask 7: known finding C04-key-mask, class '
+               'key-mask-ge-8 with require_agree); face reports with 7/27/39/49 follow the recorded machine (known finding, decided in Coq, '
+               'nothing suppressed); *_partial = every family except RSgr, which has C04_sgr_event. Trusted: Coq kernel + vm_compute; DFA dump hook + translate/dfa.py + translate/c04keys.py; hand-written payload '
                'models validated by the correspondence run; C03 theorem (feeding any partition of the stream = munch); the printer '
                '(Decoder/Printer.v) as the meaning of the protocols. No axioms.',
  'technique': 'Coq proof (reflection: verified reachability checker over the regenerated automaton for each family grammar, '
@@ -52,7 +54,7 @@ PROP = {
               'model/implementation correspondence',
  'design_ref': 'DESIGN.md 6.4',
  'n_quick': 1500,
- 'n_thorough': 30000,
+ 'n_thorough': 20000,
  'shard': 125,
  'level': 'proof',
  'trusted_base': [KERNEL,
@@ -62,8 +64,9 @@ PROP = {
                   'specification Decoder/Printer.v: protocol printer written from ECMA-48 / DEC / xterm ctlseqs / kitty protocol documents',
                   'C03: the incremental tokeniser under any partition into reads computes `munch` (Automata/TokenizerTheorems.v)',
                   HARNESS],
- 'assumptions': ['coordinates 1..65535, other numbers below 2^32 (at most 19 digits)',
+ 'assumptions': ['coordinates 1..65535, other numbers below 2^32 (at most 19 digits); colour channels of 4, 8, 12 or 16 bits, any value',
+                 'kitty keys without event types and text field (enhancement flags 2 and 16 are not requested by the library)',
                  'payload text is valid UTF-8 without ESC',
-                 'sequences are self-delimiting (the automaton is in a terminal accepting state after them); the ambiguous legacy '
-                 'encodings (bare ESC-prefixed keys followed by more input, CSI 1;nR) are resolved for the key'],
+                 'table keys other than the six bare ESC-prefixes (ESC, ESC O, ESC P, ESC [, ESC ], ESC _), which are not self-delimiting; '
+                 'CSI 1;nR is resolved for the key; self-delimitation of every other well-formed report is a theorem'],
 }
